@@ -40,8 +40,9 @@ def main():
     meta = json.load(open(os.path.join(src, "meta.json")))
     pid = meta["property"]
     name = a.name or pid
-    wt = "/tmp/seedrun_%s_%d" % (name, os.getpid())
-    cache = wt + ".cache"
+    wt = "/tmp/seedrun_wt"          # fixed path: the content-addressed cache then only rebuilds what the patch touches
+    cache = os.path.join(VERIF, ".cache")
+    sh(["git", "-C", "/repo", "worktree", "remove", "--force", wt])
     env = dict(os.environ, VERIF_REPO=wt, VERIF_CACHE=cache, PYTHONPATH=VERIF)
     res = {"property": pid, "name": name, "ran_at": time.strftime("%Y-%m-%d %H:%M:%S")}
     r = sh(["git", "-C", "/repo", "worktree", "add", "-q", "--detach", wt, "HEAD"])
@@ -95,7 +96,6 @@ def main():
                                     "tail": r.stdout.strip().splitlines()[-1:] + r.stderr.strip().splitlines()[-2:]}
     finally:
         sh(["git", "-C", "/repo", "worktree", "remove", "--force", wt])
-        shutil.rmtree(cache, ignore_errors=True)
     confirmed = a.skip_confirm or (res.get("demo_clean_exit") == 0 and res.get("patch_applies") and
                                    res.get("demo_patched_exit", 0) != 0 and "86 passed" in res.get("pinned_tests", ""))
     res["confirmed"] = bool(confirmed)
